@@ -2,10 +2,14 @@ package webtransport
 
 import (
 	"encoding/binary"
+	"fmt"
 	"io"
+	"math"
 
 	"github.com/karagenc/socket.io-go/engine.io/parser"
 )
+
+var errFrameTooLarge = fmt.Errorf("webtransport: frame length is too large")
 
 type clientOpenPacketData struct {
 	SID string `json:"sid"`
@@ -85,7 +89,12 @@ func nextPacket(r io.Reader) (*parser.Packet, error) {
 			if err != nil {
 				return nil, err
 			}
-			expectedLen = int(binary.BigEndian.Uint32(header[:]))
+			n := binary.BigEndian.Uint64(header[:])
+			// The length must fit into a non-negative int on every platform.
+			if n > math.MaxInt32 {
+				return nil, errFrameTooLarge
+			}
+			expectedLen = int(n)
 			state = ReadPayload
 		case ReadPayload:
 			return parser.DecodeWithLen(r, isBinary, expectedLen)
